@@ -8,6 +8,7 @@ of the function.  BaseException-only classes are not tracked.
 from __future__ import annotations
 
 import ast
+import re
 from dataclasses import dataclass, field
 
 from .interp import (
@@ -610,6 +611,16 @@ class EEA:
         I = self.I
         e = self.expr(s.test, st)
         st = self._kill_mutations(s.test, self._kill_on_await(s.test, st))
+        # `if (name := <tainted>)`: the name carries the taint into both branches
+        walrus = [n for n in ast.walk(s.test) if isinstance(n, ast.NamedExpr) and isinstance(n.target, ast.Name)]
+        if walrus:
+            tainted = set(st.fr.tainted)
+            for n in walrus:
+                if I.expr_tainted(n.value, st.fr) or self._taint_source(n.value, st.fr):
+                    tainted.add(n.target.id)
+                else:
+                    tainted.discard(n.target.id)
+            st = st.replace(fr=st.fr.with_taint(frozenset(tainted)))
         t = I.truth(s.test, st.fr) if self.prune else None
         pos, neg = self.facts_of_test(s.test, st)
         outs = []
@@ -1484,10 +1495,26 @@ class EEA:
                 return self.merge(out, self._one(S.KE, self.site(fr, e, "call:builtins.dict.pop"), fr))
             if fn.attr in ("get", "pop", "values", "items", "keys", "copy", "setdefault", "update"):
                 return out
+        # the type checker's verdict on the call's arguments: a call that does not fit the signature raises TypeError
+        if (fr.module.relpath, e.lineno) in self.arity_errors():
+            self.obligations += 1
+            out = self.merge(out, self._one(S.TE, self.site(fr, e, "call-arity", self.arity_errors()[(fr.module.relpath, e.lineno)]), fr))
         targets = I.resolve_call(e, fr, facts=st.facts)
         for t in targets:
             out = self.merge(out, self.target_escapes(t, e, st))
         return out
+
+    def arity_errors(self) -> dict:
+        """(module path, line) -> message of every [call-arg] diagnostic mypy produced for the analysed package."""
+        cached = getattr(self, "_arity", None)
+        if cached is None:
+            cached = {}
+            for ln in self.prog.facts.get("errors", []):
+                m = re.match(r"^(.*?):(\d+): error: (.*)  \[call-arg\]$", ln)
+                if m:
+                    cached[("src/" + m.group(1), int(m.group(2)))] = m.group(3)
+            self._arity = cached
+        return cached
 
     def getattr_raises(self, e: ast.Call, st: St) -> dict:
         fr = st.fr
@@ -1497,6 +1524,8 @@ class EEA:
         if isinstance(e.args[1], ast.Constant):
             return {}
         vals = self.I.eval(e, fr)
+        if UNKNOWN in vals and self._getattr_over_own_fields(e, fr):
+            return {}
         if UNKNOWN in vals:
             raise AnalysisError(f"dispatch idiom not recognised at {fr.module.relpath}:{e.lineno}: {norm(e)[:100]}")
         out: dict = {}
@@ -1504,6 +1533,25 @@ class EEA:
             if isinstance(v, Absent):
                 out = self.merge(out, self._one(S.AE, self.site(fr, e, "getattr-absent", f"getattr -> {v.owner.rsplit('.', 1)[-1]}.{v.name} missing"), fr))
         return out
+
+    def _getattr_over_own_fields(self, e: ast.Call, fr: Frame) -> bool:
+        """`getattr(self, name)` with name ranging over a literal tuple of attribute names that the class's
+        __init__ assigns unconditionally: the lookup cannot fail."""
+        obj, nm = e.args[0], e.args[1]
+        f = fr.func
+        if not (isinstance(obj, ast.Name) and obj.id == "self" and isinstance(nm, ast.Name) and f.cls is not None):
+            return False
+        names = None
+        for n in self.I.own_nodes(f):
+            if isinstance(n, (ast.For, ast.comprehension)) and isinstance(n.target, ast.Name) and n.target.id == nm.id and isinstance(n.iter, (ast.Tuple, ast.List)) and n.iter.elts and all(isinstance(x, ast.Constant) and isinstance(x.value, str) for x in n.iter.elts):
+                names = [x.value for x in n.iter.elts]
+        if not names or (self.I.local_assigns(f).get(nm.id) or []) not in ([None], []):
+            return False
+        init = f.cls.find_method("__init__")
+        if init is None:
+            return False
+        assigned = {t.attr for st_ in init.node.body if isinstance(st_, (ast.Assign, ast.AnnAssign)) for t in (st_.targets if isinstance(st_, ast.Assign) else [st_.target]) if isinstance(t, ast.Attribute) and isinstance(t.value, ast.Name) and t.value.id == "self" and (f is not init or st_.lineno < e.lineno)}
+        return set(names) <= assigned
 
     def target_escapes(self, t: Target, e: ast.Call, st: St) -> dict:
         fr = st.fr
